@@ -50,6 +50,9 @@ def key_names():
     idents = [[], [ts.tlv(8, b'alice')], [ts.tlv(8, b'org'), ts.tlv(8, b'unit'), ts.tlv(0x20, b'dept')]]
     for a, b in itertools.product(range(len(idents)), range(len(ids))):
         yield f'ident{a}-id{b}', idents[a] + [KEY_COMP, ids[b]]
+    # an identity that is itself named after a key (a subordinate of /org/KEY/root-1): the key name has two KEY components
+    yield 'nested-key', [ts.tlv(8, b'org'), KEY_COMP, ts.tlv(8, b'root-1'), KEY_COMP, ts.tlv(8, b'sub-7')]
+    yield 'nested-key-2', [KEY_COMP, ts.tlv(8, b'a'), KEY_COMP, ts.tlv(8, b'b')]
 
 
 def issuer_signer(kind):
@@ -184,6 +187,16 @@ def derive_cases(tier):
         yield {'f': 'derive', 'kn': 'text', 'iid': 'str', 'subj': 'ec256_1', 'iss': iss, 'start': STARTS[3], 'dur': 3600, 'it': 0, 'text': True}
     for f in ('self', 'req'):
         yield {'f': f, 'kn': 'text', 'subj': 'ec256_1', 'iss': 'ed', 'now': '2024-02-29T12:00:00+00:00', 'it': 0, 'text': True}
+    # W: public keys whose DER encoding begins / ends with an octet that is white space in ASCII (the last octet of an EC point is any
+    #    value); instants with a sub-second part and durations that are not whole seconds
+    for ws in (b'\x0a', b'\x20', b'\x09', b'\x0d'):
+        for f in ('derive', 'self', 'req'):
+            c = {'f': f, 'kn': 'ident1-id0', 'subj': 'ec256_1', 'iss': 'ed', 'it': 0, 'keytail': ws.hex()}
+            c.update({'iid': 'str', 'start': STARTS[3], 'dur': 3600} if f == 'derive' else {'now': '2024-02-29T12:00:00+00:00'})
+            yield c
+    for st, du in (('2024-12-31T23:59:59.600000', 0.5), ('2024-12-31T23:59:59.600000', 0.25), ('2024-02-28T23:59:58.999999', 1.000001),
+                   ('2024-02-29T12:00:00.500000', 3600), ('2024-02-29T12:00:00', 0.75)):
+        yield {'f': 'derive', 'kn': 'ident1-id0', 'iid': 'str', 'subj': 'ec256_1', 'iss': 'ed', 'start': st, 'dur': du, 'it': 0}
     # F: the key name given in the other documented forms (generator of components, tuple, URI text, encoded name)
     for form in ('gen', 'tuple', 'uri', 'wire'):
         yield {'f': 'derive', 'kn': 'ident1-id1', 'iid': 'str', 'subj': 'ec256_1', 'iss': 'ed', 'start': STARTS[3], 'dur': 3600, 'it': 0, 'form': form}
@@ -243,6 +256,8 @@ def run_case_inner(case):
     else:
         kn = names[case['kn']]
     pub = pub_der(case['subj'])
+    if case.get('keytail'):
+        pub = pub[:-1] + bytes.fromhex(case['keytail'])
     signer, loc = issuer_signer(case['iss'])
     if case.get('text'):
         loc = ['issu\u00e9r', 'k \u00e9', 'KEY', ts.tlv(8, b'\x01')]
